@@ -208,7 +208,7 @@ def _one_op(op, world, program, stats, hist, p0, dspecs, flat, pkind, dtv, shock
             stats.checks += 1
             stats.sim_steps += N * (T - 1)
             if not bool(torch.isfinite(out).all()):
-                where, singular = diagnose(d, sp["kind"], op["model"], spot)
+                where, singular = diagnose(d, sp["kind"], op["model"], spot, cost=float(p0.cost))
                 if singular:
                     stats.ambiguous_skipped += 1
                     hist.add(op="hedger", model=op["model"], out="singular")
@@ -339,7 +339,7 @@ def _cause(mask, lm, ttm, vol, kind=None):
     return "ordinary", False
 
 
-def diagnose(d, kind, model, spot, hedger_cols_only=True):
+def diagnose(d, kind, model, spot, hedger_cols_only=True, cost=0.0):
     """attribute a non-finite hedger result to the first pricing-module method that is non-finite on the
     simulated state, and to the market condition there"""
     import pfhedge.nn as pfn
@@ -360,11 +360,17 @@ def diagnose(d, kind, model, spot, hedger_cols_only=True):
             bad[:, T - 1] = False  # the hedger never uses the maturity column
         if bool(bad.any()):
             cause, singular = _cause(bad, lm, ttm, vol, kind)
+            if singular and meth == "gamma" and cost > 0 and bool(torch.isposinf(out[bad]).all()):
+                # gamma = +inf with a positive cost gives an infinite no-transaction band: the Whalley-Wilmott hedge is then
+                # simply the previous hedge - finite. Only 0 * inf (zero cost) is genuinely undefined.
+                return "ww_model@infinite_band", False
             return "%s.%s@%s" % (type(m).__name__, meth, cause), singular
     # the module methods are finite on the state: the defect is in the hedging model / band itself
     kink = (lm == _STATE_MAX[0]) if (kind == "LookbackOption" and _STATE_MAX[0] is not None) else (lm == 0)
     lmz = kink[:, : T - 1] & ((vol[:, : T - 1] == 0) | (ttm[:, : T - 1] == 0))
     if bool(lmz.any()) and kind != "AmericanBinaryOption":
+        if model == "ww" and cost > 0 and kind in ("EuropeanOption", "LookbackOption"):
+            return "ww_model@infinite_band", False
         return "%s_model@singular" % model, True
     zero = bool(((vol[:, : T - 1] == 0)).any())
     return "%s_model@%s" % (model, "zero_volatility" if zero else "ordinary"), False
